@@ -123,7 +123,8 @@ func (w *world) runKS(m *message, target string, shareAtMax bool, ksPool *pool) 
 		if inplace {
 			dst = src
 		} else {
-			dst = rlwe.NewCiphertext(params, 1, eng.Pick(w.rnd, level, params.MaxLevel(), 0))
+			// a used receiver: other level, and one time in three the three components of a non-relinearised product
+			dst = rlwe.NewCiphertext(params, eng.Pick(w.rnd, 1, 1, 2), eng.Pick(w.rnd, level, params.MaxLevel(), 0))
 			w.dirtyCt(params, dst)
 		}
 		if !c.Try(sig+".KeySwitch", func() { proto.KeySwitch(src, agg, dst) }) {
@@ -266,7 +267,8 @@ func (w *world) runPCKS(m *message, sharedTarget bool, shareAtMax bool, pkPool *
 		if inplace {
 			dst = src
 		} else {
-			dst = rlwe.NewCiphertext(params, 1, eng.Pick(w.rnd, level, params.MaxLevel(), 0))
+			// a used receiver: other level, and one time in three the three components of a non-relinearised product
+			dst = rlwe.NewCiphertext(params, eng.Pick(w.rnd, 1, 1, 2), eng.Pick(w.rnd, level, params.MaxLevel(), 0))
 			w.dirtyCt(params, dst)
 		}
 		if !c.Try(sig+".KeySwitch", func() { proto.KeySwitch(src, agg, dst) }) {
